@@ -110,10 +110,37 @@ func (o EQOpts) build() *s2.EdgeQueryOptions {
 }
 
 func (o EQOpts) newQuery(ix *s2.ShapeIndex) *s2.EdgeQuery {
+	q, _ := o.newQueryWithOptions(ix)
+	return q
+}
+
+// newQueryWithOptions also returns the options object the caller keeps (the query shares it).
+func (o EQOpts) newQueryWithOptions(ix *s2.ShapeIndex) (*s2.EdgeQuery, *s2.EdgeQueryOptions) {
+	eo := o.build()
 	if o.Furthest {
-		return s2.NewFurthestEdgeQuery(ix, o.build())
+		return s2.NewFurthestEdgeQuery(ix, eo), eo
 	}
-	return s2.NewClosestEdgeQuery(ix, o.build())
+	return s2.NewClosestEdgeQuery(ix, eo), eo
+}
+
+// apply sets every option of o on an existing options object (what a caller does to change the
+// options of a live query).
+func (o EQOpts) apply(e *s2.EdgeQueryOptions) {
+	if o.MaxResults > 0 {
+		e.MaxResults(o.MaxResults)
+	} else {
+		e.MaxResults(math.MaxInt32)
+	}
+	if o.HasLimit {
+		e.DistanceLimit(o.Limit)
+	} else if o.Furthest {
+		e.DistanceLimit(s1.NegativeChordAngle)
+	} else {
+		e.DistanceLimit(s1.InfChordAngle())
+	}
+	e.MaxError(o.MaxError)
+	e.IncludeInteriors(o.Interiors)
+	e.UseBruteForce(o.BruteForce)
 }
 
 // Op is one query with all of its arguments drawn in advance.
@@ -310,6 +337,7 @@ func targetCallsFor(op *Op, world []*Obj, qs *Queries) tcalls {
 // Queries holds long-lived query objects (C13). In C14 it is nil: every call makes its own.
 type Queries struct {
 	Tgt   []tcalls
+	EQO   []*s2.EdgeQueryOptions // the caller's options object of each long-lived EdgeQuery (shared with the query)
 	EQ    []*s2.EdgeQuery
 	EQOpt []EQOpts
 	EQObj []int
